@@ -78,7 +78,7 @@ def _mk_tree(r, prof, bs):
     return treegen.gen_tree(r, bs=bs, nfiles=prof.get("nfiles", 6), ndirs=prof.get("ndirs", 2),
                             hostile=prof.get("hostile", False), specials=prof.get("specials", True),
                             xattrs=prof.get("xattrs", False), hardlinks=prof.get("hardlinks", False),
-                            big=prof.get("big", False), bigdir=prof.get("bigdir", 0), duptails=prof.get("duptails", 0))
+                            big=prof.get("big", False), bigdir=prof.get("bigdir", 0), bigdir_dense=prof.get("bigdir_dense", False), duptails=prof.get("duptails", 0), tiny=prof.get("tiny", 0))
 
 
 def build_case(bdir, seed, kind, profile, casedir):
@@ -92,6 +92,16 @@ def build_case(bdir, seed, kind, profile, casedir):
     bs = prof.get("bs") or r.choice([4096, 4096, 4096, 8192, 16384, 131072])
     c.desc.update(comp=comp, bs=bs)
     base_opts = ["-c", comp, "-b", str(bs), "-q"]
+    rx = rng(seed, "xopts")
+    if prof.get("xopts", rx.randrange(3) == 0):
+        # compressor options with per-block searches (gzip strategies, xz filters): a compressor instance per worker keeps state between blocks
+        table = {"gzip": ["huffman,rle", "filtered,fixed,huffman", "default,rle", "level=1,huffman,rle,filtered", "window=9", "level=9"],
+                 "xz": ["x86,arm", "x86,powerpc,sparc", "level=1", "dictsize=8192,x86", "extreme"],
+                 "lz4": ["hc"], "zstd": ["level=1", "level=19"], "lzma": ["level=1", "extreme"]}
+        x = rx.choice(table.get(comp, [""]))
+        if x:
+            base_opts += ["-X", x]
+            c.desc["xopts"] = x
     if "jobs" in prof:
         base_opts += ["-j", str(prof["jobs"])]
     if "backlog" in prof:
@@ -279,8 +289,9 @@ class Outcome:
 
 
 def run_case(bdir, case, casedir, plan, variant="plain", extra_env=None, keep_image=None, timeout=120, cpu=20,
-             argv=None, umask=None):
-    """Runs the case's tool in casedir. Outputs of a previous run are removed first."""
+             argv=None, umask=None, preexisting=None):
+    """Runs the case's tool in casedir. Outputs of a previous run are removed first; preexisting: bytes the output image path
+    holds before the run (packers with -f)."""
     binary = os.path.join(bdir, variant, "sim-" + case.tool)
     for rel in list(case.outputs.values()) + [case.out_image, case.unpack_root]:
         if rel:
@@ -291,6 +302,9 @@ def run_case(bdir, case, casedir, plan, variant="plain", extra_env=None, keep_im
                 os.unlink(p)
     if case.unpack_root:
         os.makedirs(os.path.join(casedir, case.unpack_root))
+    if preexisting is not None and case.out_image:
+        with open(os.path.join(casedir, case.out_image), "wb") as f:
+            f.write(preexisting)
     stdout_path = os.path.join(casedir, ".stdout")
     env = dict(case.env)
     if extra_env:
